@@ -59,8 +59,8 @@ prim_cor!(i16, "i16", Prim::Int16, [1, -2, -32768], |x| Val::IntN(16, *x as i64)
 prim_cor!(i32, "i32", Prim::Int32, [-1, i32::MIN, i32::MAX], |x| Val::IntN(32, *x as i64));
 prim_cor!(i64, "i64", Prim::Int64, [0, i64::MIN, i64::MAX], |x| Val::IntN(64, *x));
 prim_cor!(isize, "isize", Prim::Int64, [-1, isize::MIN], |x| Val::IntN(64, *x as i64));
-prim_cor!(f32, "f32", Prim::Float32, [0.0, -0.0, 1.5, f32::from_bits(0x7fc00001)], |x| Val::F32(x.to_bits()));
-prim_cor!(f64, "f64", Prim::Float64, [0.0, -0.0, 1.5, f64::from_bits(0x7ff8000000000001)], |x| Val::F64(x.to_bits()));
+prim_cor!(f32, "f32", Prim::Float32, [0.0, -0.0, 1.5, f32::from_bits(0x7fc00001), f32::from_bits(0x7fa00000), f32::from_bits(0xff800001)], |x| Val::F32(x.to_bits()));
+prim_cor!(f64, "f64", Prim::Float64, [0.0, -0.0, 1.5, f64::from_bits(0x7ff8000000000001), f64::from_bits(0x7ff4000000000000), f64::from_bits(0xfff0000000000001)], |x| Val::F64(x.to_bits()));
 prim_cor!(String, "String", Prim::Text, ["".to_string(), "a".to_string(), "é😀".to_string()], |x| Val::Text(x.clone()));
 prim_cor!((), "unit", Prim::Null, [()], |_x| Val::Null);
 prim_cor!(Reserved, "Reserved", Prim::Reserved, [Reserved], |_x| Val::Reserved);
